@@ -131,7 +131,7 @@ def explain(d, ev, go):
         return None
     if kind == "maxdims":
         return "C06-ddl-not-from-this-file" if d.get("verified_raw") else None
-    if kind in ("value", "count"):
+    if kind in ("value", "value-vs-raw", "count"):
         g = go.get(obj) or {}
         if attr:
             a = None
@@ -140,10 +140,25 @@ def explain(d, ev, go):
                     a = x
             if a is None:
                 return None
-            if a["class"] in (0, 1) and a["bits"] & 1:
-                return "C06-attr-byte-order-ignored"
-            if a["class"] == 0 and not a["bits"] & 8 and a["size"] in (4, 8):
-                return "C06-attr-unsigned-as-signed"
+            gv = c06.parse_go_value(a.get("value") or "")
+            raw = bytes.fromhex(a.get("data") or "")
+            sz = a["size"]
+            n = min(len(gv[1]), len(raw) // sz) if sz and isinstance(gv[1], list) else 0
+            if a["class"] in (0, 1) and a["bits"] & 1 and n:
+                # verified: every returned element is the little-endian reading of the stored (big-endian) bytes
+                ok = True
+                for i in range(n):
+                    b = raw[i * sz:(i + 1) * sz]
+                    if a["class"] == 0:
+                        ok = ok and gv[0] == "int" and gv[1][i] == c06.dec_int_py("LE", True, sz, b)
+                    else:
+                        w = struct.unpack("<f" if sz == 4 else "<d", b)[0]
+                        ok = ok and (gv[1][i] == w or (math.isnan(w) and math.isnan(gv[1][i])))
+                if ok:
+                    return "C06-attr-byte-order-ignored"
+            if a["class"] == 0 and not a["bits"] & 8 and sz in (4, 8) and n:
+                if all(gv[1][i] == c06.dec_int_py("BE" if a["bits"] & 1 else "LE", True, sz, raw[i * sz:(i + 1) * sz]) for i in range(n)):
+                    return "C06-attr-unsigned-as-signed"
             return None
         if 32000 in (e.get("filters") or []):
             return "C06-lzf-long-backreference"
@@ -151,8 +166,14 @@ def explain(d, ev, go):
             return "C06-optional-filter-failure-skipped"
         if g.get("class") == 1 and g.get("bits", 0) & 0x40:
             return "C06-vax-float-as-ieee"
-        if g.get("class") == 0 and g.get("size") == 8:
-            return "C06-int64-through-float64"
+        if g.get("class") == 0 and g.get("size") == 8 and g.get("raw") and g.get("read"):
+            raw = bytes.fromhex(g["raw"])
+            vals = [struct.unpack(">d", bytes.fromhex(x))[0] for x in g["read"]]
+            n = min(len(vals), len(raw) // 8)
+            order, signed = ("BE" if g["bits"] & 1 else "LE"), bool(g["bits"] & 8)
+            # verified: every returned element is float64(stored integer)
+            if all(vals[i] == float(c06.dec_int_py(order, signed, 8, raw[8 * i:8 * i + 8])) for i in range(n)):
+                return "C06-int64-through-float64"
         if g.get("class") == 6:
             return "C06-compound-unsigned-as-signed"
         return None
